@@ -134,7 +134,7 @@ def run(pid, tier, seed, replay):
         return o
     with cf.ThreadPoolExecutor(max_workers=16) as ex:
         souts = [o for o in ex.map(sshard, range(16)) if o]
-    for mode, nq, nt in (("stress", 40, 400), ("restart", 40, 400), ("writeback", 24, 240)):
+    for mode, nq, nt in (("stress", 40, 400), ("restart", 40, 400), ("writeback", 24, 240), ("lockheld", 40, 400)):
         def sone(i, mode=mode, nq=nq, nt=nt):
             o = os.path.join(wd, "sio_%s_%02d.ndjson" % (mode, i))
             vlib.run([sdrv, mode, str((nq if tier == "quick" else nt) // 8), str(seed * 100 + i), o], timeout=6000)
